@@ -1325,6 +1325,25 @@ func genWfShapes(stream string, seed uint64) []GenCase {
 		sb.WriteString("} else { x = 7; } while (x > 2990) { x = x - 1; } return x;")
 		add(sb.String(), "long-jumps")
 	}
+	// one expression that holds hundreds or thousands of operands on the value stack at once (array, hash,
+	// call), whose elements are then used, and more work on the same stack afterwards
+	for _, n := range []int{255, 256, 1023, 1024, 1025, 1500, 2049} {
+		var els, pairs strings.Builder
+		for k := 0; k < n; k++ {
+			if k > 0 {
+				els.WriteString(", ")
+				pairs.WriteString(", ")
+			}
+			fmt.Fprintf(&els, "%d", k)
+			fmt.Fprintf(&pairs, "%d: %d", k, k*2)
+		}
+		add(fmt.Sprintf("a = [%s]; b = [a[0], a[1], a[%d], a[%d], len(a)]; t = 0; foreach v in a { t = t + v; } return [b, t, [1, 2, 3][1]];", els.String(), n/2, n-1), "wide-operand-stack")
+		add(fmt.Sprintf("function first(xs) { return xs[0] + 1; } return [first([%s]), 5, len([%s])];", els.String(), els.String()), "wide-operand-stack")
+		add(fmt.Sprintf("return 1 + len([%s]) * 2;", els.String()), "wide-operand-stack")
+		if n <= 1500 {
+			add(fmt.Sprintf("h = {%s}; return [h[0], h[1], h[%d], len(keys(h)), [7][0]];", pairs.String(), n-1), "wide-operand-stack")
+		}
+	}
 	return out
 }
 
